@@ -3,6 +3,7 @@ package props
 import (
 	"errors"
 	"fmt"
+	"strings"
 
 	"github.com/csgura/fp"
 	"github.com/csgura/fp/either"
@@ -334,20 +335,40 @@ func c02Recover(r *sim.Run) {
 type c02pv struct {
 	name string
 	v    any
+	// raise, when set, makes the Go runtime itself panic (the value is then a runtime.Error
+	// created by the runtime; it is compared by its message)
+	raise func()
+	msg   string
 }
+
+var c02NilMap map[string]int
+var c02NilPtr *c02pstruct
+var c02Zero = 0
+var c02AnyStr any = "not an int"
 
 var c02PanicErr = errors.New("panic-error-value")
 
 type c02pstruct struct{ A int }
 
 var c02PanicVals = []c02pv{
-	{"string", "boom"},
-	{"error", c02PanicErr},
-	{"int", 42},
-	{"struct", c02pstruct{7}},
-	{"typed nil pointer", (*int)(nil)},
-	{"fmt error", fmt.Errorf("wrapped: %w", c02PanicErr)},
+	{name: "string", v: "boom"},
+	{name: "error", v: c02PanicErr},
+	{name: "int", v: 42},
+	{name: "struct", v: c02pstruct{7}},
+	{name: "typed nil pointer", v: (*int)(nil)},
+	{name: "fmt error", v: fmt.Errorf("wrapped: %w", c02PanicErr)},
+	{name: "runtime error (nil map write)", raise: func() { c02NilMap["k"] = 1 }, msg: "assignment to entry in nil map"},
+	{name: "runtime error (nil dereference)", raise: func() { c02Zero = c02NilPtr.A }, msg: "invalid memory address or nil pointer dereference"},
+	{name: "runtime error (index out of range)", raise: func() { s := make([]int, c02Zero); c02Zero = s[c02Zero+3] }, msg: "index out of range [3] with length 0"},
+	{name: "runtime error (integer divide by zero)", raise: func() { c02Zero = 7 / c02Zero }, msg: "integer divide by zero"},
+	{name: "runtime error (failed type assertion)", raise: func() { c02Zero = c02AnyStr.(int) }, msg: "interface conversion: interface {} is string, not int"},
+	{name: "custom error type", v: c02customErr{code: 3}},
 }
+
+type c02customErr struct{ code int }
+
+func (c c02customErr) Error() string { return fmt.Sprintf("custom %d", c.code) }
+func (c c02customErr) RuntimeError() {} // satisfies runtime.Error although raised by user code
 
 func panicValOf(err error) (any, bool) {
 	var pe interface{ Panic() any }
@@ -378,6 +399,9 @@ func c02Panics(r *sim.Run) {
 			return 0, sentinel
 		case 2:
 			r.Fault("body-panics")
+			if pv.raise != nil {
+				pv.raise()
+			}
 			panic(pv.v)
 		}
 		return 5, nil
@@ -389,16 +413,23 @@ func c02Panics(r *sim.Run) {
 	isFuture := false
 	ex := &execSet{run: r}
 	ctx := ex.ctx(r.Choose(exKinds, "ex"))
+	var escaped any
+	guard := func(f func()) {
+		defer func() { escaped = recover() }()
+		f()
+	}
 	switch kind {
 	case 0:
 		hasErr = false
-		res = try.Of(func() int { v, _ := body(); return v })
+		guard(func() { res = try.Of(func() int { v, _ := body(); return v }) })
 	case 1:
-		res = try.Call(body)
+		guard(func() { res = try.Call(body) })
 	case 2:
 		unitRes = true
-		u := try.CallUnit(func() error { _, err := body(); return err })
-		res = try.Map2(u, try.Success(5), func(fp.Unit, int) int { return 5 })
+		guard(func() {
+			u := try.CallUnit(func() error { _, err := body(); return err })
+			res = try.Map2(u, try.Success(5), func(fp.Unit, int) int { return 5 })
+		})
 	default:
 		isFuture = true
 		r.Go("caller", func(t *sim.Task) {
@@ -438,6 +469,10 @@ func c02Panics(r *sim.Run) {
 		mode = 0
 	}
 	desc := fmt.Sprintf("%s with a body that %s", names[kind], [...]string{"returns normally", "returns an error", "panics with a " + pv.name + " value"}[mode])
+	if escaped != nil {
+		r.Violate("panic-escaped", "%s: the panic was not captured, it escaped to the caller: %v", desc, escaped)
+		return
+	}
 	if calls != 1 {
 		r.Violate("body-count", "%s: body executed %d time(s), want 1", desc, calls)
 		return
@@ -462,7 +497,12 @@ func c02Panics(r *sim.Run) {
 			r.Violate("panic-value-lost", "%s returned a Failure whose error does not expose the panic value (%T)", desc, res.Failed().Get())
 			return
 		}
-		if got != pv.v {
+		if pv.raise != nil {
+			ge, isErr := got.(error)
+			if !isErr || !strings.Contains(ge.Error(), pv.msg) {
+				r.Violate("panic-value-lost", "%s: Failure exposes panic value %v (%T), the runtime raised %q", desc, got, got, pv.msg)
+			}
+		} else if got != pv.v {
 			r.Violate("panic-value-lost", "%s: Failure exposes panic value %v (%T), the body panicked with %v (%T)", desc, got, got, pv.v, pv.v)
 		}
 	}
